@@ -219,9 +219,9 @@ pub fn cleanup_scratch() {
 thread_local! {
     static RT: tokio::runtime::Runtime = tokio::runtime::Builder::new_current_thread()
         .enable_all()
-        // one blocking thread = FIFO execution of tokio::fs operations, which makes
-        // `drain_blocking` a deterministic barrier
-        .max_blocking_threads(1)
+        // two blocking threads (the editor's directory walker holds one while its consumer
+        // needs another); `drain_blocking` is a rendezvous of two sentinels, see there
+        .max_blocking_threads(2)
         .build()
         .expect("tokio runtime");
 }
@@ -236,8 +236,19 @@ pub fn block_on<F: std::future::Future>(f: F) -> F::Output {
 /// (Repository::cache does) returns before the bytes are on disk. With the single blocking thread
 /// of this runtime a sentinel task is a barrier, so observations after it are deterministic.
 pub fn drain_blocking() {
+    // The blocking pool has two threads and a FIFO queue. Two sentinel tasks that wait for each
+    // other can only both be running once every task queued before them has finished.
     block_on(async {
-        let _ = tokio::task::spawn_blocking(|| ()).await;
+        let b = std::sync::Arc::new(std::sync::Barrier::new(2));
+        let (b1, b2) = (b.clone(), b.clone());
+        let h1 = tokio::task::spawn_blocking(move || {
+            b1.wait();
+        });
+        let h2 = tokio::task::spawn_blocking(move || {
+            b2.wait();
+        });
+        let _ = h1.await;
+        let _ = h2.await;
     });
 }
 
